@@ -62,28 +62,29 @@ Section Proto.
 Variable ip6 : str -> option str.
 Variable handler : str -> hres.
 Variable has_mw has_upload : bool.
+Variable up_call_fails : option str.
 Variable peer_ip : str.
 Variable peer_fp : option str.
 
 Notation route := (route handler).
 Notation handle_gemini := (handle_gemini ip6 handler has_mw peer_ip peer_fp).
-Notation start_upload := (start_upload has_upload).
-Notation process_titan_upload := (process_titan_upload has_mw has_upload peer_ip peer_fp).
-Notation handle_titan_url := (handle_titan_url ip6 has_mw has_upload peer_ip peer_fp).
-Notation data_received := (data_received ip6 handler has_mw has_upload peer_ip peer_fp).
-Notation feed := (feed ip6 handler has_mw has_upload peer_ip peer_fp).
-Notation task_done := (task_done handler has_upload).
-Notation step := (step ip6 handler has_mw has_upload peer_ip peer_fp).
-Notation run := (run ip6 handler has_mw has_upload peer_ip peer_fp).
-Notation final := (final ip6 handler has_mw has_upload peer_ip peer_fp).
+Notation start_upload := (start_upload has_upload up_call_fails).
+Notation process_titan_upload := (process_titan_upload has_mw has_upload up_call_fails peer_ip peer_fp).
+Notation handle_titan_url := (handle_titan_url ip6 has_mw has_upload up_call_fails peer_ip peer_fp).
+Notation data_received := (data_received ip6 handler has_mw has_upload up_call_fails peer_ip peer_fp).
+Notation feed := (feed ip6 handler has_mw has_upload up_call_fails peer_ip peer_fp).
+Notation task_done := (task_done handler has_upload up_call_fails).
+Notation step := (step ip6 handler has_mw has_upload up_call_fails peer_ip peer_fp).
+Notation run := (run ip6 handler has_mw has_upload up_call_fails peer_ip peer_fp).
+Notation final := (final ip6 handler has_mw has_upload up_call_fails peer_ip peer_fp).
 Notation Inv := (Inv has_upload).
-Notation Eff_step := (Eff_step ip6 handler has_mw has_upload peer_ip peer_fp).
-Notation Inv_step := (Inv_step ip6 handler has_mw has_upload peer_ip peer_fp).
-Notation dr_A_none := (dr_A_none ip6 handler has_mw has_upload peer_ip peer_fp).
-Notation dr_A_big := (dr_A_big ip6 handler has_mw has_upload peer_ip peer_fp).
-Notation dr_A_bad := (dr_A_bad ip6 handler has_mw has_upload peer_ip peer_fp).
-Notation dr_A_line := (dr_A_line ip6 handler has_mw has_upload peer_ip peer_fp).
-Notation trailing := (trailing_ignored_gen ip6 handler has_mw has_upload peer_ip peer_fp).
+Notation Eff_step := (Eff_step ip6 handler has_mw has_upload up_call_fails peer_ip peer_fp).
+Notation Inv_step := (Inv_step ip6 handler has_mw has_upload up_call_fails peer_ip peer_fp).
+Notation dr_A_none := (dr_A_none ip6 handler has_mw has_upload up_call_fails peer_ip peer_fp).
+Notation dr_A_big := (dr_A_big ip6 handler has_mw has_upload up_call_fails peer_ip peer_fp).
+Notation dr_A_bad := (dr_A_bad ip6 handler has_mw has_upload up_call_fails peer_ip peer_fp).
+Notation dr_A_line := (dr_A_line ip6 handler has_mw has_upload up_call_fails peer_ip peer_fp).
+Notation trailing := (trailing_ignored_gen ip6 handler has_mw has_upload up_call_fails peer_ip peer_fp).
 
 (* ---------- where consultations start ---------- *)
 Lemma cons_hg s line i u ip fp : await_titan s = false -> timer s <> TArmed ->
@@ -152,10 +153,10 @@ Proof.
   destruct (titan_from_line ip6 line) as [t|k m|];
     [|rewrite send_error_eq; apply (fr_line _ _ (Frame_send s _))|reflexivity].
   destruct (N.eqb (t_size t) 0).
-  - match goal with |- context [process_titan_upload ?x] => destruct (ptu_complete has_mw has_upload peer_ip peer_fp x) as [K1 _] end.
+  - match goal with |- context [process_titan_upload ?x] => destruct (ptu_complete has_mw has_upload up_call_fails peer_ip peer_fp x) as [K1 _] end.
     rewrite K1, cancel_timer_eq. reflexivity.
   - destruct (N.leb _ _); [|reflexivity].
-    match goal with |- context [process_titan_upload ?x] => destruct (ptu_complete has_mw has_upload peer_ip peer_fp x) as [K1 _] end.
+    match goal with |- context [process_titan_upload ?x] => destruct (ptu_complete has_mw has_upload up_call_fails peer_ip peer_fp x) as [K1 _] end.
     rewrite K1. cbn [line_rcvd set_content]. rewrite cancel_timer_eq. reflexivity.
 Qed.
 
@@ -177,7 +178,7 @@ Proof.
       intro H. destruct (cons_ptu x0 i u ip fp T0 H) as [H1 H2].
       split; [exact H1|]. split.
       * apply (Cons_pre s x0); try (unfold x0; cbn; rewrite cancel_timer_eq; reflexivity). exact H2.
-      * destruct (ptu_complete has_mw has_upload peer_ip peer_fp x0) as [K1 _]. rewrite K1.
+      * destruct (ptu_complete has_mw has_upload up_call_fails peer_ip peer_fp x0) as [K1 _]. rewrite K1.
         unfold x0. cbn [line_rcvd set_content]. rewrite cancel_timer_eq. reflexivity.
     + rewrite (trailing s d L A). cbn. intros [].
   - pose proof (i_line _ _ I L) as A.
@@ -235,10 +236,10 @@ Proof.
   destruct (negb has_upload); [left; rewrite send_error_eq; apply S|].
   destruct (titan_from_line ip6 line) as [t|k m|]; [|left; rewrite send_error_eq; apply S|left; split; assumption].
   destruct (N.eqb (t_size t) 0).
-  - left. match goal with |- context [process_titan_upload ?x] => destruct (ptu_complete has_mw has_upload peer_ip peer_fp x) as [K1 K2] end.
+  - left. match goal with |- context [process_titan_upload ?x] => destruct (ptu_complete has_mw has_upload up_call_fails peer_ip peer_fp x) as [K1 K2] end.
     split; [rewrite K1, cancel_timer_eq; exact L|exact K2].
   - destruct (N.leb _ _); [|right; reflexivity].
-    left. match goal with |- context [process_titan_upload ?x] => destruct (ptu_complete has_mw has_upload peer_ip peer_fp x) as [K1 K2] end.
+    left. match goal with |- context [process_titan_upload ?x] => destruct (ptu_complete has_mw has_upload up_call_fails peer_ip peer_fp x) as [K1 K2] end.
     split; [rewrite K1; cbn [line_rcvd set_content]; rewrite cancel_timer_eq; exact L|exact K2].
 Qed.
 
@@ -251,7 +252,7 @@ Proof.
       destruct (titan s) as [t|]; [|cbn; congruence].
       destruct (N.leb _ _); [|cbn; congruence].
       intros _. left.
-      match goal with |- context [process_titan_upload ?x] => destruct (ptu_complete has_mw has_upload peer_ip peer_fp x) as [K1 K2] end.
+      match goal with |- context [process_titan_upload ?x] => destruct (ptu_complete has_mw has_upload up_call_fails peer_ip peer_fp x) as [K1 K2] end.
       split; [rewrite K1; cbn [line_rcvd set_content]; rewrite cancel_timer_eq; reflexivity|exact K2].
     + rewrite (trailing s d L A). cbn. congruence.
   - pose proof (i_line _ _ I L) as A.
@@ -276,7 +277,7 @@ Lemma NC_feed sl : forall s, Inv s -> NC s -> existsb is_amw (snd (feed s sl)) =
 Proof.
   induction sl as [|d r IH]; intros s I N; cbn [ServerProto.feed]; [reflexivity|].
   destruct (NC_data_received s d I N) as [N1 H1].
-  pose proof (Inv_data_received ip6 handler has_mw has_upload peer_ip peer_fp s d I) as I1.
+  pose proof (Inv_data_received ip6 handler has_mw has_upload up_call_fails peer_ip peer_fp s d I) as I1.
   destruct (data_received s d) as [s1 a1]. cbn [fst snd] in *.
   specialize (IH s1 I1 N1). destruct (feed s1 r) as [s2 a2]. cbn [fst snd] in *.
   rewrite existsb_app, H1, IH. reflexivity.
@@ -294,8 +295,8 @@ Lemma feed_consult sl : forall s, Inv s -> (sent s = false \/ NC s) ->
               Done (fst (feed s sl)) /\ timer (fst (feed s sl)) <> TArmed.
 Proof.
   induction sl as [|d r IH]; intros s I H; cbn [ServerProto.feed]; [left; reflexivity|].
-  pose proof (Inv_data_received ip6 handler has_mw has_upload peer_ip peer_fp s d I) as I1.
-  pose proof (W_data_received ip6 handler has_mw has_upload peer_ip peer_fp s d) as W1.
+  pose proof (Inv_data_received ip6 handler has_mw has_upload up_call_fails peer_ip peer_fp s d I) as I1.
+  pose proof (W_data_received ip6 handler has_mw has_upload up_call_fails peer_ip peer_fp s d) as W1.
   destruct (existsb is_amw (snd (data_received s d))) eqn:E1.
   - (* the consultation starts in this slice *)
     destruct (amw_exists _ E1) as [i [u [ip [fp HIn]]]].
@@ -439,7 +440,7 @@ Proof.
     { destruct (Frame_send s1 (verdict_resp v)) as [_ L' A' _].
       assert (P' : pending (fst (send_response s1 (verdict_resp v))) = []) by (rewrite send_fst; destruct (muted s1); reflexivity).
       unfold cap. rewrite L', A', P'. cbn. rewrite L, A. reflexivity. }
-    pose proof (run_invocs ip6 handler has_mw has_upload peer_ip peer_fp r (fst (send_response s1 (verdict_resp v)))) as RI.
+    pose proof (run_invocs ip6 handler has_mw has_upload up_call_fails peer_ip peer_fp r (fst (send_response s1 (verdict_resp v)))) as RI.
     split.
     + rewrite invocs_app, send_invocs. slia.
     + intros HL TR S. rewrite send_response_eq. unfold muted. cbn [tr sent set_pending s1]. rewrite TR, S. cbn [negb orb fst snd].
@@ -479,7 +480,7 @@ Qed.
 
 Lemma sent_step s e : sent (fst (step s e)) = sent s || existsb is_close (snd (step s e)).
 Proof.
-  pose proof (step_closes ip6 handler has_mw has_upload peer_ip peer_fp s e) as H. unfold cs, closes in H.
+  pose proof (step_closes ip6 handler has_mw has_upload up_call_fails peer_ip peer_fp s e) as H. unfold cs, closes in H.
   destruct (existsb is_close (snd (step s e))) eqn:E.
   - apply existsb_count_pos in E. destruct (sent s), (sent (fst (step s e))); try reflexivity; slia.
   - apply existsb_count in E. rewrite E in H. destruct (sent s), (sent (fst (step s e))); try reflexivity; slia.
@@ -493,14 +494,14 @@ Definition mwfree (s : st) : Prop := forall x, In x (pending s) -> is_mwk x = fa
 Lemma mwfree_invocs s e : mwfree s -> invocs (snd (step s e)) = 0%nat.
 Proof using MW.
   intro F. destruct (invocs (snd (step s e))) eqn:E; [reflexivity|]. exfalso.
-  destruct (invoc_step ip6 handler has_mw has_upload peer_ip peer_fp s e MW) as [i [t [k [_ [H1 H2]]]]]; [slia|].
+  destruct (invoc_step ip6 handler has_mw has_upload up_call_fails peer_ip peer_fp s e MW) as [i [t [k [_ [H1 H2]]]]]; [slia|].
   rewrite (F _ H1) in H2. discriminate.
 Qed.
 
 Lemma mwfree_step s e : Inv s -> mwfree s -> amw_ids (snd (step s e)) = [] -> mwfree (fst (step s e)).
 Proof.
   intros I F A x Hx. destruct (is_mwk x) eqn:M; [|reflexivity]. exfalso.
-  pose proof (mw_pending_step ip6 handler has_mw has_upload peer_ip peer_fp s e [] I) as K.
+  pose proof (mw_pending_step ip6 handler has_mw has_upload up_call_fails peer_ip peer_fp s e [] I) as K.
   rewrite A in K. cbn [app] in K. apply (K ltac:(intros y Hy My; rewrite (F _ Hy) in My; discriminate) x Hx M).
 Qed.
 
@@ -514,7 +515,7 @@ Proof using MW.
   fold is_close in V2. rewrite <- sent_step in V2.
   rewrite run_cons, flat_cons, invocs_app, (mwfree_invocs s e F). cbn [plus].
   pose proof (Inv_step s e I) as I'.
-  pose proof (W_step ip6 handler has_mw has_upload peer_ip peer_fp s e [e] (or_introl eq_refl)) as Ws.
+  pose proof (W_step ip6 handler has_mw has_upload up_call_fails peer_ip peer_fp s e [e] (or_introl eq_refl)) as Ws.
   destruct (amw_ids (snd (step s e))) as [|i0 l0] eqn:EA.
   - (* no consultation started *)
     destruct (sent (fst (step s e))) eqn:S'.
@@ -537,7 +538,7 @@ Proof using MW.
       destruct (RG_Q1 r _ i k I' Q v FV' NA) as [G1 G2].
       split; [exact G1|]. intros HL TR S. destruct (has_lost_cons _ _ HL) as [NL HL'].
       rewrite (wire_app_nowc _ _ K2). apply G2; [exact HL'| |congruence].
-      rewrite (e_tr _ _ _ (Eff_feed ip6 handler has_mw has_upload peer_ip peer_fp sl s)). exact TR0.
+      rewrite (e_tr _ _ _ (Eff_feed ip6 handler has_mw has_upload up_call_fails peer_ip peer_fp sl s)). exact TR0.
 Qed.
 
 Theorem refusal_run (c : cfg) evs :
